@@ -294,6 +294,8 @@ def point_set(spec):
         pts = np.vstack([sparse, blob(0.7, 0.012, 2 * n_min + 2) + np.array([0.0, -0.2] + [0.0] * (n_dim - 2)),
                          blob(0.75, 0.012, 2 * n_min + 3) + np.array([0.0, 0.15] + [0.0] * (n_dim - 2))])
         pts = np.clip(pts, 0.001, 0.999)
+    elif kind == 'halo':     # a dense core inside a broad sparse halo, with a large minimum cluster size: the top-up path
+        pts = np.vstack([blob(0.5, 0.02, 3 * n_min), np.clip(rng.normal(0.5, 0.12, (max(n_dim + 3, (2 * n_min) // 3), n_dim)), 0.001, 0.999)])
     elif kind == 'random':
         k = int(rng.integers(1, 5))
         parts = []
@@ -356,14 +358,15 @@ def run(chk):
              ('one', 2, 6, 100 + s, 'E'), ('two', 2, 6, 200 + s, 'E'), ('uneven', 2, 6, 28 + s, 'E'),
              ('three', 2, 5, 300 + s, 'E'), ('two', 3, 6, 400 + s, 'M'), ('three', 2, 5, 500 + s, 'M'),
              ('discs', 2, 5, 900 + s, 'E'), ('discs', 2, 4, 901 + s, 'M'), ('bigdiscs', 2, 5, 920 + s, 'E'), ('sparse_dense', 2, 5, 910 + s, 'E'),
-             ('sparse_dense', 2, 6, 911 + s, 'E'), ('sparse_dense', 3, 5, 912 + s, 'M')]
+             ('sparse_dense', 2, 6, 911 + s, 'E'), ('sparse_dense', 3, 5, 912 + s, 'M'),
+             ('halo', 2, 30, 930 + s, 'E'), ('halo', 3, 40, 931 + s, 'M'), ('halo', 2, 52, 932 + s, 'E')]
     specs += [('random', 2, int(4 + (j % 3)), 1000 + 10 * s + j, 'E' if j % 3 else 'M') for j in range(6)]
     if chk.tier == 'thorough':
         specs += [('four', 2, 4, 600 + s, 'E'), ('uneven', 2, 7, 29 + s, 'M'), ('one', 4, 8, 700 + s, 'E'),
                   ('four', 3, 5, 800 + s, 'M')]
     tasks = []
     for spec in specs:
-        d = depth if spec[0] not in ('four', 'bigdiscs') else depth - 1
+        d = depth if spec[0] not in ('four', 'bigdiscs', 'halo') else depth - 1
         for l in LETTERS:
             if l == 'S0' and spec[4] != 'E':
                 continue
